@@ -51,6 +51,7 @@ NonceChoices ==
   IF NonceMode = "top" THEN {NTop(2), NTop(1), NTop(0), NLo(0)}
   ELSE {NLo(0), NLo(1), NLo(2), <<"pow", 32, 0>>, <<"pow", 32, 1>>, <<"pow", 63, 0>>}
 
+PN == IF NonceMode = "top" THEN NTop(1) ELSE NLo(1)      \* the nonce of stateless probe / tag-only writes
 PLenT(j) == PayBase + j
 PayT(id, j) == Lit((IF id = "I" THEN "ti" ELSE "tr") \o ToString(j), PLenT(j))
 BIG == 70000
@@ -89,12 +90,16 @@ Send(id) ==
   /\ UNCHANGED seq
 
 (* a maximum-size payload (must be accepted: exactly 65535 bytes on the wire) or one byte more (Input) *)
+(* ... and the other extreme: an EMPTY payload (the message is the bare tag) into buffers of 16, 15 and 0 bytes *)
 SendBig(id) ==
   /\ Tick /\ cnt.big > 0
-  /\ \E len \in {MAXMSG - TAGLEN, MAXMSG - TAGLEN + 1} :
-       LET p == Lit(IF id = "I" THEN "bigi" ELSE "bigr", len) IN
-       IF Stateful THEN TrWrite(id, p, BIG)
-       ELSE \E n \in NonceChoices : SlWrite(id, n, p, BIG)
+  /\ \/ \E len \in {MAXMSG - TAGLEN, MAXMSG - TAGLEN + 1} :
+          LET p == Lit(IF id = "I" THEN "bigi" ELSE "bigr", len) IN
+          IF Stateful THEN TrWrite(id, p, BIG)
+          ELSE \E n \in NonceChoices : SlWrite(id, n, p, BIG)
+     \/ \E buf \in {TAGLEN, TAGLEN - 1, 0} :
+          IF Stateful THEN TrWrite(id, Empty, buf)
+          ELSE SlWrite(id, PN, Empty, buf)
   /\ IF OkStep
      THEN pool' = pool \cup {[m |-> LastStep.exp.out, from |-> id, j |-> MAXMSG]}
      ELSE UNCHANGED pool
@@ -222,7 +227,6 @@ ViewT == <<ep, pool, cnt, seq>>
 (* followed by four calls computed by the pure operators from the post-state: I writes, R reads that, R        *)
 (* writes, I reads that - so the keys and counters both sides REALLY hold after the edge are compared with the *)
 (* model's, byte for byte, for every edge and every path.                                                     *)
-PN == IF NonceMode = "top" THEN NTop(1) ELSE NLo(1)
 PrW(ts, id, p) ==
   LET w == IF Stateful THEN TWrite(ts, p, BIG) ELSE SWrite(ts, PN, p, BIG) @@ [ts |-> ts]
       args == IF Stateful THEN [payload |-> p, buf |-> BIG] ELSE [n |-> PN, payload |-> p, buf |-> BIG]
